@@ -170,6 +170,13 @@ SYNTHETIC = [
     ('identity-CO', '[C:1]-[O:2]', '[A:1]-[A:2]', {}),
     ('identity-CC', '[C:1]-[C:2]', '[A:1]-[A:2]', {}),
     ('identity-aromatic', '[C;a:1]:[C;a:2]', '[A:1]:[A:2]', {}),
+    # identity templates whose replacement lists the neighbours in ANOTHER order than the structure has them: the product's
+    # neighbour dicts are permuted, so kept stereo labels (tetrahedron / allene / cis-trans) must really be translated
+    ('identity-rev-CO', '[C:1]-[O:2]', '[A:2]-[A:1]', {}),
+    ('identity-rev-C=C', '[C:1]=[C:2]', '[A:2]=[A:1]', {}),
+    ('identity-allyl', '[C:1]=[C:2]-[C,O:3]', '[A:3]-[A:2]=[A:1]', {}),
+    ('identity-branch', '[C:1](-[C,O,N:2])-[C:3]', '[A:3]-[A:1]-[A:2]', {}),
+    ('identity-vinyl', '[C:1](-[C:2])=[C:3]', '[A:2]-[A:1]=[A:3]', {}),
     ('retype-O-to-S', '[C:1][O;D1:2]', '[C:1][S:2]', {}),
     ('retype-N-to-Nplus', '[C:1][N;D1:2]', '[C:1][N+:2]', {}),
     ('isotope', '[C;D1:1][C:2]', '[13C:1][A:2]', {}),
@@ -404,6 +411,39 @@ def deleted_spec(bonds, D, R):
     return out
 
 
+def far_from_edit(mol, edited):
+    """atoms whose ring system (rings fused through shared atoms, via sssr) and direct neighbours contain no edited atom and
+    no neighbour of an edited atom"""
+    key = (id(mol), frozenset(edited))
+    if _far_cache.get('key') == key:
+        return _far_cache['val']
+    near = set(edited)
+    for n in edited:
+        near |= set(mol._bonds.get(n, ()))
+    # ring systems: union of rings sharing atoms
+    systems = []
+    for ring in mol.sssr:
+        rs = set(ring)
+        merged = [x for x in systems if x & rs]
+        for x in merged:
+            rs |= x
+            systems.remove(x)
+        systems.append(rs)
+    bad = set(near)
+    for x in systems:
+        if x & near:
+            bad |= x
+    # substituents of a touched ring system may exchange hydrogens with it through tautomer repair: exclude them too
+    for n in list(bad):
+        bad |= set(mol._bonds.get(n, ()))
+    val = set(mol._atoms) - bad
+    _far_cache['key'], _far_cache['val'] = key, val
+    return val
+
+
+_far_cache = {}
+
+
 def pattern_to_delete(q, r, delete_atoms=True):
     if not delete_atoms:
         return set()
@@ -430,7 +470,12 @@ def _clauses(q, r, mol, kw=None, fix_rings=False, limit=12, builtin=False):
     bad = []
     t = Transformer(q, r, fix_aromatic_rings=fix_rings, **kw)
     mappings = list(itertools.islice(q.get_mapping(mol, automorphism_filter=af), limit))
-    prods = list(itertools.islice(t(mol), limit))
+    try:
+        prods = list(itertools.islice(t(mol), limit))
+    except Exception as e:
+        if fix_rings and not builtin and type(e).__name__ in ('InvalidAromaticRing', 'ValenceError'):
+            return []    # a synthetic template that builds an impossible aromatic ring: kekule() refuses, nothing to compare
+        raise
     if len(prods) != len(mappings):
         bad.append(('one-product-per-match', f'{len(mappings)} matches, {len(prods)} products'))
         return bad
@@ -478,6 +523,12 @@ def _clauses(q, r, mol, kw=None, fix_rings=False, limit=12, builtin=False):
             if not fix_rings and a.implicit_hydrogens != sa.implicit_hydrogens and sa.implicit_hydrogens is not None:
                 bad.append(('frame-atoms', f'match {mp}: unnamed atom {n} changed hydrogens '
                                            f'{sa.implicit_hydrogens}->{a.implicit_hydrogens}'))
+            if fix_rings and a.implicit_hydrogens != sa.implicit_hydrogens and sa.implicit_hydrogens is not None \
+                    and n in far_from_edit(mol, patched | dele):
+                # with aromaticity repair on, kekule()/thiele() may move hydrogens inside a ring system the edit touched;
+                # an atom whose whole ring system (and neighbourhood) is away from the edit must keep its count
+                bad.append(('frame-atoms', f'match {mp}: unnamed atom {n}, away from the edited atoms, changed hydrogens '
+                                           f'{sa.implicit_hydrogens}->{a.implicit_hydrogens} (fix_aromatic_rings=True)'))
             want = [(m, int(b)) for m, b in mol._bonds[n].items() if m not in dele]
             got = [(m, int(b)) for m, b in p._bonds[n].items()]
             if fix_rings:
@@ -638,7 +689,7 @@ BLOCKS = ['CC(=O)O', 'OC(=O)c1ccccc1', 'CN', 'CCNCC', 'Nc1ccccc1', 'C1CCNCC1', '
           'OC(=O)CCC(=O)O', 'NCCN', 'C=CCBr', 'CCCBr', 'BrCC(=O)OC', 'OC(=O)C(F)(F)F', 'CC(N)C(=O)O',
           'FC(F)(F)c1ccc(Br)cc1', 'Nc1ccc(Br)cc1', 'OB(O)C1CC1', 'CC(C)(C)OC(=O)NCCN', 'O=C1CCCCC1', 'CNC',
           'c1ccc(Nc2ccccc2)cc1', 'CNc1ccccc1', 'C1CNCO1', 'CNOC', 'CNNC(C)=O', 'BrC=C', 'CC=CBr', 'CC(Cl)=O', 'OB(O)C=C',
-          'OB(O)C#CC', 'OB(O)C=CC', 'CCl', 'CCCl', '[Na+].[Cl-]', 'O']
+          'OB(O)C#CC', 'OB(O)C=CC', 'CCl', 'CCCl', 'CCBr', 'BrCCCBr', 'O=CCC=O', 'C[C@H](Br)CC', '[Na+].[Cl-]', 'O']
 
 SYNTH_REACTORS = [
     # (name, patterns, products, kwargs)
@@ -789,6 +840,8 @@ def _reactor_clauses(patterns, products, kw, mols, rng, builtin=False, limit=20)
                 if p.check_valence():
                     bad.append(('valence-valid', f'product {p} of {rxn} has valence errors at {p.check_valence()}'))
     key = lambda rs: sorted({'.'.join(sorted(sig_str(p) for p in r.products)) for r in rs})
+    if not all(string_stable(m) for m in mols):
+        return bad   # canonical strings of these reactants are not renumbering-stable (C01): nothing to compare
     try:
         base = run([m.copy() for m in mols], R_plain)
     except Exception:
@@ -821,6 +874,273 @@ def _reactor_clauses(patterns, products, kw, mols, rng, builtin=False, limit=20)
     return bad
 
 
+def has_stereo(mol):
+    return any(a._stereo is not None for a in mol._atoms.values()) or any(b._stereo is not None for _, _, b in mol.bonds())
+
+
+def stereo_clauses(q, r, mol, kw=None, fix_rings=True, limit=8):
+    """"... keep their numbers, attributes, neighbours and **stereo**" / "an identity template returns the input", on the real
+    Transformer output. Product atoms keep the reactant's numbers, so configurations are compared centre by centre with the
+    sign-translation functions of chython.algorithms.stereo (property C12's, not reactor code) for ONE fixed neighbour order
+    taken from the reactant — no canonical strings involved. A centre is compared when its neighbour set is unchanged, the
+    replacement gives no stereo mark for it, and it is labelled on both sides; when the product graph equals the input graph
+    (identity application) every label must survive."""
+    try:
+        return _stereo_clauses(q, r, mol, kw, fix_rings, limit)
+    except Exception as e:
+        import traceback
+        return [('product-graph', f'the stereo oracle could not read the product: {type(e).__name__}: {e} '
+                                  f'({traceback.format_exc().splitlines()[-3].strip()})')]
+
+
+def _stereo_clauses(q, r, mol, kw, fix_rings, limit):
+    from chython import Transformer
+    kw = dict(kw or {})
+    af = kw.get('automorphism_filter', True)
+    t = Transformer(q, r, fix_aromatic_rings=fix_rings, **kw)
+    mappings = list(itertools.islice(q.get_mapping(mol, automorphism_filter=af), limit))
+    try:
+        prods = list(itertools.islice(t(mol), limit))
+    except Exception:
+        return []
+    if len(prods) != len(mappings):
+        return []
+    over_atoms = {n for n, a in r.atoms() if getattr(a, 'stereo', None) is not None}
+    over_bonds = any(getattr(b, 'stereo', None) is not None for _, _, b in r.bonds())
+    bad = []
+    base_text = canon_mol_text(render_mol(mol))
+    tm, am, cm = mol.stereogenic_tetrahedrons, mol.stereogenic_allenes, mol.stereogenic_cis_trans
+    for mp, p in zip(mappings, prods):
+        overridden = {mp[n] for n in over_atoms if n in mp}
+        same_graph = canon_mol_text(render_mol(p)) == base_text
+        tp, ap, cp = p.stereogenic_tetrahedrons, p.stereogenic_allenes, p.stereogenic_cis_trans
+        for n, env in tm.items():
+            if mol._atoms[n].stereo is None or n in overridden or n not in p._atoms:
+                continue
+            if set(mol._bonds[n]) != set(p._bonds[n]) or n not in tp:
+                continue
+            if p._atoms[n].stereo is None:
+                if same_graph:
+                    bad.append(('frame-stereo', f'match {mp}: product graph equals the input but tetrahedral label of atom {n} is lost'))
+                continue
+            if mol._translate_tetrahedron_sign(n, env) != p._translate_tetrahedron_sign(n, env):
+                bad.append(('frame-stereo', f'match {mp}: configuration of atom {n} (neighbours {env}) is inverted in the product'))
+        for c, env in am.items():
+            if mol._atoms[c].stereo is None or c in overridden or c not in p._atoms or c not in ap or set(ap[c]) != set(env):
+                continue
+            if p._atoms[c].stereo is None:
+                if same_graph:
+                    bad.append(('frame-stereo', f'match {mp}: product graph equals the input but allene label of atom {c} is lost'))
+                continue
+            if mol._translate_allene_sign(c, env[0], env[1]) != p._translate_allene_sign(c, env[0], env[1]):
+                bad.append(('frame-stereo', f'match {mp}: configuration of allene {c} is inverted in the product'))
+        if not over_bonds:
+            for (a1, a2), env in cm.items():
+                try:
+                    s_in = mol._translate_cis_trans_sign(a1, a2, env[0], env[1])
+                except KeyError:
+                    continue
+                penv = cp.get((a1, a2)) or cp.get((a2, a1))
+                if penv is None or set(penv) != set(env):
+                    continue
+                try:
+                    s_out = p._translate_cis_trans_sign(a1, a2, env[0], env[1])
+                except KeyError:
+                    if same_graph:
+                        bad.append(('frame-stereo', f'match {mp}: product graph equals the input but cis-trans label of {a1}={a2} is lost'))
+                    continue
+                if s_in != s_out:
+                    bad.append(('frame-stereo', f'match {mp}: cis-trans configuration of {a1}={a2} is inverted in the product'))
+    return bad
+
+
+OVERRIDE_PAIRS = [
+    # (name, pattern, replacement with @, the same with @@, replacement atom carrying the mark)
+    ('override-3', '[C;D3;z1:1]([O:2])[C:3]', '[A;@:1]([A:2])[A:3]', '[A;@@:1]([A:2])[A:3]', 1),
+    ('override-4', '[C;D4;z1:1]([C:2])([C:3])[C:4]', '[A;@:1]([A:2])([A:3])[A:4]', '[A;@@:1]([A:2])([A:3])[A:4]', 1),
+    ('override-retype', '[C;D3;z1:1]([O;D1:2])[C:3]', '[C;@:1]([S:2])[A:3]', '[C;@@:1]([S:2])[A:3]', 1),
+]
+
+
+def override_clauses(q, r1, r2, k, mol, limit=6):
+    """"stereo override": a stereo mark in the replacement decides the configuration — the two marks give opposite
+    configurations at that centre (same fixed neighbour order), whatever configuration the reactant had there."""
+    try:
+        return _override_clauses(q, r1, r2, k, mol, limit)
+    except Exception as e:
+        return [('product-graph', f'the override oracle could not read the product: {type(e).__name__}: {e}')]
+
+
+def _override_clauses(q, r1, r2, k, mol, limit):
+    from chython import Transformer
+    bad = []
+    mappings = list(itertools.islice(q.get_mapping(mol), limit))
+    if not mappings:
+        return []
+    t1, t2 = Transformer(q, r1), Transformer(q, r2)
+
+    def signs(m):
+        out = []
+        for mp, pa, pb in zip(mappings, itertools.islice(t1(m), limit), itertools.islice(t2(m), limit)):
+            c = mp[k]
+            if c not in pa.stereogenic_tetrahedrons or c not in pb.stereogenic_tetrahedrons:
+                out.append(None)
+                continue
+            env = pa.stereogenic_tetrahedrons[c]
+            if set(env) != set(pb.stereogenic_tetrahedrons[c]):
+                out.append(None)
+                continue
+            sa, sb = pa._atoms[c].stereo, pb._atoms[c].stereo
+            if (sa is None) != (sb is None):
+                bad.append(('stereo-override', f'match {mp}: centre {c} is labelled with one mark of the replacement but not with the other'))
+                out.append(None)
+                continue
+            if sa is None:
+                out.append(None)
+                continue
+            x, y = pa._translate_tetrahedron_sign(c, env), pb._translate_tetrahedron_sign(c, env)
+            if x == y:
+                bad.append(('stereo-override', f'match {mp}: @ and @@ in the replacement give the same configuration at centre {c}'))
+            out.append((env, x))
+        return out
+
+    base = signs(mol)
+    # the reactant's own configuration at the centre must not matter
+    for i, mp in enumerate(mappings):
+        c = mp[k]
+        if mol._atoms[c].stereo is None or base[i] is None:
+            continue
+        m2 = mol.copy()
+        m2._atoms[c]._stereo = not mol._atoms[c].stereo
+        m2.flush_cache()
+        other = signs(m2)
+        if i < len(other) and other[i] is not None and other[i] != base[i]:
+            bad.append(('stereo-override', f'match {mp}: the overriding mark gives a configuration at centre {c} that depends on '
+                                           f'the configuration the reactant had'))
+    return bad
+
+
+def string_stable(m, rounds=3):
+    """is the canonical string used by the oracles invariant under renumbering for this molecule? (when it is not — Kekule
+    benzene, symmetric cages — comparing strings says nothing about the template machinery; that is C01's subject)"""
+    import random
+    rng = random.Random(len(m) * 7919 + 13)
+    s0 = sig_str(m)
+    try:
+        return all(sig_str(molgen.renumber(rng, m)[0]) == s0 for _ in range(rounds))
+    except Exception:
+        return False
+
+
+def state_key(ms):
+    return tuple(sorted(sig_str(m) for m in ms))
+
+
+def exhaustive_clauses(patterns, products, kw, mols, depth=2, cap=300):
+    """exhaustive mode (`one_shot=False`) on the public `Reactor.__call__`, real code only:
+      * every state the one-shot mode produces is also produced by the exhaustive mode (any number of patterns);
+      * for a single-pattern, single-product template the exhaustive mode yields exactly the closure (<= `depth` steps) of
+        single-match edits, computed here independently by breadth-first search with `Transformer` on one molecule at a time.
+    A state = multiset of stereo-free canonical strings of the product molecules."""
+    try:
+        return _exhaustive_clauses(patterns, products, kw, mols, depth, cap)
+    except Exception as e:
+        return [('product-graph', f'the exhaustive-mode oracle could not handle a product: {type(e).__name__}: {e}')]
+
+
+def _exhaustive_clauses(patterns, products, kw, mols, depth, cap):
+    from chython import Reactor, Transformer
+    kw2 = {k: v for k, v in dict(kw).items() if k in ('delete_atoms', 'automorphism_filter', 'fix_aromatic_rings', 'fix_tautomers')}
+    bad = []
+    if not all(string_stable(m) for m in mols):
+        return []
+    objs = {}
+
+    def run(one_shot):
+        R = Reactor(patterns, products, one_shot=one_shot, polymerise_limit=depth, **kw2)
+        out = set()
+        for i, rxn in enumerate(R(*[m.copy() for m in mols])):
+            if i > cap:
+                return None
+            k = state_key(rxn.products)
+            out.add(k)
+            objs.setdefault(k, list(rxn.products))
+        return out
+
+    def report(cl, st, text):
+        # a state is only reported when the strings of its molecules are renumbering-stable
+        if all(string_stable(m) for m in objs.get(st, [])):
+            bad.append((cl, text))
+
+    try:
+        got = run(False)
+        one = run(True)
+    except Exception:
+        return []      # a raising template (impossible product) is not an exhaustive-mode question
+    if got is None or one is None:
+        return []
+    for st in sorted(one - got)[:3]:
+        report('exhaustive-complete', st, f'state {list(st)} is produced by the one-shot mode but not by the exhaustive mode '
+                                          f'(reactants {[sig_str(m) for m in mols]})')
+    if len(patterns) == 2 and len(mols) >= 3 and depth >= 2:
+        # "all possible combinations of reactions": two reactions that share one reactant molecule (the reagent in excess) and
+        # consume two DIFFERENT other molecules can both happen; the state with both products must be delivered
+        R1 = Reactor(patterns, products, one_shot=True, **kw2)
+        single = {}
+        for i, j in itertools.permutations(range(len(mols)), 2):
+            try:
+                rs = list(itertools.islice(R1(mols[i].copy(), mols[j].copy()), 6))
+            except Exception:
+                rs = []
+            if rs:
+                single[(i, j)] = [list(rx.products) for rx in rs]
+        done = 0
+        for (i, j), (a, b) in itertools.permutations(single, 2):
+            shared = {i, j} & {a, b}
+            if len(shared) != 1 or {i, j} == {a, b} or done >= 12:
+                continue
+            (x,) = shared
+            # same role of the shared molecule in both reactions (it matches the same pattern)
+            if (i == x) != (a == x):
+                continue
+            rest = [m for k, m in enumerate(mols) if k not in {i, j, a, b}]
+            for p1 in single[(i, j)][:2]:
+                for p2 in single[(a, b)][:2]:
+                    done += 1
+                    st = state_key(p1 + p2 + rest)
+                    if st not in got:
+                        objs.setdefault(st, p1 + p2 + rest)
+                        report('exhaustive-complete', st, f'state {list(st)} (reactant {x} reacting once with each of two other '
+                                                          f'molecules) is not produced by the exhaustive mode '
+                                                          f'(reactants {[sig_str(m) for m in mols]})')
+        bad = bad[:4]
+    if len(patterns) == 1 and len(products) == 1:
+        T = Transformer(patterns[0], products[0], **kw2)
+        exp, frontier = set(), [[m.copy() for m in mols]]
+        for _ in range(depth):
+            nxt = []
+            for state in frontier:
+                for i, m in enumerate(state):
+                    for pr in T(m):
+                        ns = state[:i] + [pr] + state[i + 1:]
+                        k = state_key(ns)
+                        if k in exp:
+                            continue
+                        exp.add(k)
+                        objs.setdefault(k, ns)
+                        nxt.append(ns)
+                        if len(exp) > cap:
+                            return bad
+            frontier = nxt
+        for st in sorted(exp - got)[:3]:
+            report('exhaustive-complete', st, f'state {list(st)} is reachable by <= {depth} single-match edits but is not '
+                                              f'produced by the exhaustive mode (reactants {[sig_str(m) for m in mols]})')
+        for st in sorted(got - exp)[:3]:
+            report('exhaustive-sound', st, f'state {list(st)} is produced by the exhaustive mode but is not reachable by '
+                                           f'<= {depth} single-match edits (reactants {[sig_str(m) for m in mols]})')
+    return bad
+
+
 def reactor_replay(name, patterns, products, kw, mols):
     return {'kind': 'reactor', 'template': name, 'patterns': [str(p) for p in patterns],
             'products': [repl_text(p) for p in products], 'kwargs': kw, 'wires': [wire.mol_to_ints(m) for m in mols]}
@@ -836,6 +1156,7 @@ def probe_reactor(inp):
     for seed in range(3):
         bad += reactor_clauses(pats, prods, inp.get('kwargs') or {}, mols, random.Random(seed),
                                builtin=inp.get('template', '').startswith('reactions'))
+    bad += exhaustive_clauses(pats, prods, inp.get('kwargs') or {}, mols)
     if bad:
         return True, '; '.join(f'{c}: {d}' for c, d in bad[:4])
     return False, 'all reactor clauses hold'
@@ -853,6 +1174,13 @@ def reactor_inputs(ctx, patterns, n_sets):
     for spect, pos in (('CNCC', 'last'), ('CCOCC', 'first')):
         ms = first + [(spect, smiles(spect))] if pos == 'last' else [(spect, smiles(spect))] + first
         out.append(('+'.join(b for b, _ in ms), [m.copy() for _, m in ms]))
+    # two different molecules for one of the patterns (both can react with the same partner)
+    for pi, c in enumerate(cands):
+        if len(c) >= 2 and len(patterns) > 1:
+            two = c[:2] if pi % 2 == 0 else ctx.rng.sample(c, 2)
+            ms = [first[k] for k in range(len(cands)) if k != pi] + two
+            out.append(('+'.join(b for b, _ in ms), [m.copy() for _, m in ms]))
+            break
     for _ in range(n_sets):
         pick = [ctx.rng.choice(c) for c in cands]
         extra = [ctx.rng.choice(blocks())] if ctx.rng.random() < 0.6 else []
@@ -869,7 +1197,12 @@ def reactor_inputs(ctx, patterns, n_sets):
 EXTRA_MOLS = ['CCCCC', 'CC(C)CCC', 'CCCCO', 'OCCCC', 'COC', 'CCOCC', 'CN(C)C', 'C1CN1C', 'C1CCN(C)C1', 'C1COCC1', 'C1CCOCC1',
               'CC(C)OC', 'COC(C)=O', 'CC(C)OC(C)=O', 'ClCCl', 'FC(F)F', 'BrCCBr', 'CC=CC', 'C=CC=C', 'CC(=O)C', 'CNCC', 'CCN',
               'C[NH3+]', 'C1CC2CCC1N2C', 'CN1CC1', 'C1CCC2(CC1)OCCO2', 'CC1(C)OCC(CO)O1', 'c1ccccc1Cl', 'Brc1ccc(Cl)cc1',
-              'OCC1CCCO1', 'C1OC1', 'CN1C2CCC1CC2', '[Na+].CC(=O)[O-]', 'CCO.O', 'N12CCC(CC1)CC2']
+              'OCC1CCCO1', 'C1OC1', 'CN1C2CCC1CC2', '[Na+].CC(=O)[O-]', 'CCO.O', 'N12CCC(CC1)CC2',
+              # chiral inputs: centres / double bonds / allenes that templates name, sit next to, or leave alone
+              'C[C@H](OC)CBr', 'C[C@@H](OC)CBr', 'C[C@@H](O)CC', 'C[C@H](N)C(=O)O', 'C[C@](O)(CC)C(C)C', 'O[C@H]1CCCC[C@@H]1C',
+              'C/C=C/CO', 'C/C=C\\CO', 'OC/C=C/C(C)O', 'CC=[C@]=CCO', 'CC=[C@@]=CCO', 'C[C@H](Cl)/C=C/C', 'Br[C@H](C)CCBr',
+              'CC(CO)=[C@]=CC', 'CC(CO)=[C@@]=C(C)CC', 'C/C(CO)=C/C', 'CC/C(C)=C(/C)CO', 'C/C(CO)=C(\\C)CC',
+              'BrCCc1cnc[nH]1', 'BrCCc1c[nH]cn1', 'Cc1cc[nH]n1', 'OCc1nnn[nH]1', 'BrCCc1ccncc1']
 
 
 def molecules_for(ctx, n_corpus):
@@ -926,6 +1259,14 @@ def correspond(ctx):
                     hit[name] = hit.get(name, 0) + 1
                     for cl, det in clauses(q, r, vm, kw, fix_rings=False, limit=4 if ctx.quick else 12):
                         ctx.fail(f'C16/{cl}', f'{name} on {vtag}: {det}', replay_input(name, q, r, kw, vm))
+                    if vm is mol:   # the public default (aromaticity repair on)
+                        for cl, det in clauses(q, r, vm, kw, fix_rings=True, limit=4 if ctx.quick else 12):
+                            ctx.fail(f'C16/{cl}', f'{name} on {vtag} (fix_rings=True): {det}', replay_input(name, q, r, kw, vm, True))
+                    if has_stereo(vm):
+                        ctx.dist('stereo-checked')
+                        for fr in ((True,) if ctx.quick else (True, False)):
+                            for cl, det in stereo_clauses(q, r, vm, kw, fix_rings=fr, limit=4 if ctx.quick else 12):
+                                ctx.fail(f'C16/{cl}', f'{name} on {vtag} (fix_rings={fr}): {det}', replay_input(name, q, r, kw, vm, fr))
                     if vm is mol and (not ctx.quick or hit[name] <= 8):
                         ctx.dist('numbering-independence-checked')
                         for cl, det, *extra in numbering_clauses(q, r, vm, kw, rng, rounds=1):
@@ -957,6 +1298,27 @@ def correspond(ctx):
                 for fr in (False, True):
                     for cl, det in clauses(q, r, mol, {}, fix_rings=fr, limit=6, builtin=True):
                         ctx.fail(f'C16/{cl}', f'{name} on {tag} (fix_rings={fr}): {det}', replay_input(name, q, r, {}, mol, fr))
+                    if has_stereo(mol):
+                        for cl, det in stereo_clauses(q, r, mol, {}, fix_rings=fr, limit=6):
+                            ctx.fail(f'C16/{cl}', f'{name} on {tag} (fix_rings={fr}): {det}', replay_input(name, q, r, {}, mol, fr))
+
+    # stereo override: the two marks of the replacement give opposite configurations, whatever the reactant had
+    for name, qs, r1s, r2s, k in OVERRIDE_PAIRS:
+        try:
+            q, r1, r2 = smarts(qs), smarts(r1s), smarts(r2s)
+        except Exception as e:
+            ctx.broke('correspondence', 'synthetic-template-parse', f'{name}: {type(e).__name__}: {e}')
+            continue
+        nhit = 0
+        for tag, mol in mols:
+            if not (q < mol) or (ctx.quick and nhit >= 25):
+                continue
+            nhit += 1
+            ctx.count(('override', name, tag))
+            for cl, det in override_clauses(q, r1, r2, k, mol):
+                ctx.fail(f'C16/{cl}', f'{name} on {tag}: {det}',
+                         {'kind': 'override', 'pattern': qs, 'r1': r1s, 'r2': r2s, 'atom': k, 'wire': wire.mol_to_ints(mol)})
+        ctx.dist('override-hit:' + name, nhit)
 
     # Reactor: built-in reaction templates and synthetic multi-reactant templates
     from chython import smarts as _sm
@@ -980,6 +1342,34 @@ def correspond(ctx):
             if k:
                 for cl, det in reactor_clauses(pats, prods, kw, ms, rng, builtin=builtin):
                     ctx.fail(f'C16/{cl}', f'{name} on {tag}: {det}', reactor_replay(name, pats, prods, kw, ms))
+        # exhaustive mode (one_shot=False): superset of the one-shot mode; closure of single edits for one-pattern templates
+        for tag, ms in (sets[:3] if ctx.quick and builtin else sets):
+            if sum(len(m) for m in ms) > 40:
+                continue
+            ctx.dist('exhaustive-checked')
+            ctx.count(('exhaustive', name, tag))
+            for cl, det in exhaustive_clauses(pats, prods, kw, ms):
+                ctx.fail(f'C16/{cl}', f'{name} on {tag}: {det}', reactor_replay(name, pats, prods, kw, ms))
+
+    # single-pattern templates as exhaustive Reactors on SEVERAL matching molecules (each synthetic Transformer template is one)
+    single = [('synthetic.' + n, [q], [r], kw) for n, q, r, kw in synth if kw.get('delete_atoms', True) is True]
+    single += [(n, p, pr, kw) for n, p, pr, kw, _ in rxs if len(p) == 1 and len(pr) == 1]
+    small = [(t, m) for t, m in mols if len(m) <= 9][:60] + [(b, m) for b, m in blocks() if len(m) <= 9]
+    for name, pats, prods, kw in single:
+        cand = [(t, m) for t, m in small if pats[0] < m]
+        if len(cand) < 2:
+            continue
+        for _ in range(2 if ctx.quick else 6):
+            pick = rng.sample(cand, min(len(cand), rng.choice([2, 2, 3])))
+            if rng.random() < 0.5:
+                pick.append(rng.choice(small))
+            ms = [m.copy() for _, m in pick]
+            tag = '+'.join(t for t, _ in pick)
+            ctx.dist('exhaustive-checked')
+            ctx.count(('exhaustive', name, tag))
+            kw1 = {k: v for k, v in kw.items() if k in ('automorphism_filter',)}
+            for cl, det in exhaustive_clauses(pats, prods, kw1, ms):
+                ctx.fail(f'C16/{cl}', f'{name} on {tag}: {det}', reactor_replay(name, pats, prods, kw1, ms))
 
     cases.run()
 
@@ -1048,6 +1438,9 @@ def transform_failures(inp, numbering=True):
     bad = clauses(q, r, mol, kw, fix_rings=bool(inp.get('fix_rings')), limit=50, builtin=builtin)
     if not inp.get('fix_rings'):
         bad += clauses(q, r, mol, kw, fix_rings=True, limit=50, builtin=builtin)
+    if has_stereo(mol):
+        for fr in (True, False):
+            bad += stereo_clauses(q, r, mol, kw, fix_rings=fr, limit=50)
     if numbering:
         bad += numbering_clauses(q, r, mol, kw)
     return bad
@@ -1259,4 +1652,9 @@ def probe(inp):
         return probe_reactor(inp)
     if inp.get('kind') == 'numbering-pair':
         return probe_numbering_pair(inp)
+    if inp.get('kind') == 'override':
+        from chython import smarts
+        mol = wire.ints_to_mol(inp['wire'], calc=True)[0]
+        bad = override_clauses(smarts(inp['pattern']), smarts(inp['r1']), smarts(inp['r2']), inp['atom'], mol)
+        return bool(bad), '; '.join(f'{c}: {d}' for c, d in bad[:3]) or 'override clauses hold'
     return None, 'unknown probe kind'
